@@ -147,3 +147,102 @@ Example uv_scratch_detects_missing_replication :
   let planar := planar_after 16 48 stale row row in
   (planar 10 && planar 11 && planar 26 && planar 27) = false.
 Proof. reflexivity. Qed.
+
+(** ** The same theorem about REGENERATED index facts (tools/gosrc2v/uvscratch.go ->
+    Gen/UVScratch.v): the step of j, the (stride coefficient, constant) pairs of the reads
+    of dsp.AccumulateRGBA's main loop, the step and constants of its writes to dst, the
+    multiplier and constants of dsp.ConvertRGBA32ToUV's reads are PARAMETERS here; the
+    theorem holds for every such data that passes the boolean check [facts_ok], and
+    Properties/C12.v instantiates it with the generated values. *)
+From Coq Require Import List.
+Import ListNotations.
+
+Section UVGen.
+  Variables w padW L : nat.
+  Variable hasAlpha : bool.
+  Variables pooledRow0 pooledRow1 pooledPlanar pooledTmp : arr.
+  Variable jstep : nat.
+  Variable acc_reads : list (nat * nat).
+  Variable dstep : nat.
+  Variable dst_writes : list nat.
+  Variable cmult : nat.
+  Variable creads : list nat.
+
+  Definition facts_ok : bool :=
+    (jstep =? 2) && forallb (fun ab => (fst ab <=? 1) && (snd ab <=? 1)) acc_reads &&
+    (dstep =? cmult) && (1 <=? dstep) &&
+    forallb (fun c => (c <? dstep) && existsb (Nat.eqb c) dst_writes) creads.
+
+  Definition acc_fresh_gen (i : nat) : bool :=
+    forallb (fun ab => planarRGB w padW L pooledRow0 pooledRow1 pooledPlanar (jstep * i + fst ab * padW + snd ab) &&
+                       planarA w padW L hasAlpha pooledRow0 pooledRow1 pooledPlanar (jstep * i + fst ab * padW + snd ab)) acc_reads.
+
+  Definition tmp_gen : arr :=
+    fun k => if (k / dstep <? padW / 2) && existsb (Nat.eqb (k mod dstep)) dst_writes
+             then acc_fresh_gen (k / dstep) else pooledTmp k.
+
+  Definition uv_output_fresh_gen (i : nat) : bool := forallb (fun c => tmp_gen (cmult * i + c)) creads.
+End UVGen.
+
+Theorem uv_worker_scratch_overwritten_gen :
+  forall w mbW L hasAlpha pooledRow0 pooledRow1 pooledPlanar pooledTmp jstep acc_reads dstep dst_writes cmult creads i,
+  facts_ok jstep acc_reads dstep dst_writes cmult creads = true ->
+  1 <= w -> w <= 16 * mbW -> 16 * mbW <= L -> i < (16 * mbW + 1) / 2 ->
+  uv_output_fresh_gen w (16 * mbW) L hasAlpha pooledRow0 pooledRow1 pooledPlanar pooledTmp
+                      jstep acc_reads dstep dst_writes cmult creads i = true.
+Proof.
+  intros w mbW L hasAlpha p0 p1 pp pt jstep acc_reads dstep dst_writes cmult creads i Hok Hw Hwp HL Hi.
+  set (padW := 16 * mbW) in *.
+  unfold facts_ok in Hok. repeat (apply andb_true_iff in Hok; destruct Hok as [Hok ?]).
+  rename H into Hcr, H0 into Hd1, H1 into Hdc, H2 into Har. apply Nat.eqb_eq in Hok, Hdc. apply Nat.leb_le in Hd1. subst jstep cmult.
+  rewrite forallb_forall in Har, Hcr.
+  assert (Hhalf : (padW + 1) / 2 = padW / 2).
+  { unfold padW. replace (16 * mbW + 1) with (1 + (8 * mbW) * 2) by lia. rewrite Nat.div_add by lia.
+    replace (16 * mbW) with ((8 * mbW) * 2) by lia. rewrite Nat.div_mul by lia. cbn. lia. }
+  assert (Hpw : padW / 2 * 2 = padW).
+  { unfold padW. replace (16 * mbW) with ((8 * mbW) * 2) by lia. rewrite Nat.div_mul by lia. lia. }
+  rewrite Hhalf in Hi.
+  assert (F : forall k, k < 2 * padW -> planar_after padW L pp (row_after w padW p0) (row_after w padW p1) k = true)
+    by (intros k Hk; apply planar_after_fresh; lia).
+  assert (FA : forall k, k < 2 * padW -> planarA w padW L hasAlpha p0 p1 pp k = true).
+  { intros k Hk. unfold planarA. destruct hasAlpha; [apply F; exact Hk|apply fill_in; lia]. }
+  unfold uv_output_fresh_gen. apply forallb_forall. intros c Hc. specialize (Hcr c Hc).
+  apply andb_true_iff in Hcr. destruct Hcr as [Hclt Hcin]. apply Nat.ltb_lt in Hclt.
+  unfold tmp_gen.
+  assert (Ediv : (dstep * i + c) / dstep = i).
+  { rewrite Nat.mul_comm, Nat.div_add_l by lia. rewrite Nat.div_small by lia. lia. }
+  assert (Emod : (dstep * i + c) mod dstep = c).
+  { rewrite Nat.add_comm, Nat.mul_comm, Nat.mod_add by lia. apply Nat.mod_small. lia. }
+  rewrite Ediv, Emod.
+  replace (i <? padW / 2) with true by (symmetry; apply Nat.ltb_lt; exact Hi).
+  assert (Hex : existsb (Nat.eqb c) dst_writes = true).
+  { rewrite existsb_exists in *. destruct Hcin as (x & Hx & He). exists x. split; [exact Hx|exact He]. }
+  rewrite Hex. cbn [andb].
+  unfold acc_fresh_gen. apply forallb_forall. intros [a b] Hab. specialize (Har (a, b) Hab). cbn [fst snd] in *.
+  apply andb_true_iff in Har. destruct Har as [Ha Hb]. apply Nat.leb_le in Ha, Hb.
+  assert (Hidx : 2 * i + a * padW + b < 2 * padW) by nia.
+  unfold planarRGB. rewrite F, FA by exact Hidx. reflexivity.
+Qed.
+
+(** The Go text of the UV goroutine's row-pair loop that [row_after] / [planar_after] /
+    [planarA] transcribe (printed as tools/gosrc2v/uvscratch.go prints it); compared with the
+    regenerated text, so that a change of the row fill, the edge replication, the copies or
+    the call arguments breaks a proof obligation until the model is revisited. *)
+From Coq Require Import String.
+Definition modelled_pair_loop_body : list string :=
+  ["for row := 0; row < 2; row++ { srcY := y*2 + row sy := srcY if sy >= h { sy = h - 1 } rowOff := srcBase + sy*pixStride rBuf := wk.rowR[row] gBuf := wk.rowG[row] bBuf := wk.rowB[row] aBuf := wk.rowA[row] for x := 0; x < w; x++ { off := rowOff + x*4 rBuf[x] = pix[off] gBuf[x] = pix[off+1] bBuf[x] = pix[off+2] aBuf[x] = pix[off+3] } if padW > w { for x := w; x < padW; x++ { rBuf[x] = rBuf[w-1] gBuf[x] = gBuf[w-1] bBuf[x] = bBuf[w-1] aBuf[x] = aBuf[w-1] } } }";
+   "copy(wk.planarR[:padW], wk.rowR[0])";
+   "copy(wk.planarR[padW:], wk.rowR[1])";
+   "copy(wk.planarG[:padW], wk.rowG[0])";
+   "copy(wk.planarG[padW:], wk.rowG[1])";
+   "copy(wk.planarB[:padW], wk.rowB[0])";
+   "copy(wk.planarB[padW:], wk.rowB[1])";
+   "if hasAlpha { copy(wk.planarA[:padW], wk.rowA[0]) copy(wk.planarA[padW:], wk.rowA[1]) }";
+   "dsp.AccumulateRGBA(wk.planarR, wk.planarG, wk.planarB, wk.planarA, padW, wk.tmpRGB, padW)";
+   "dsp.ConvertRGBA32ToUV(wk.tmpRGB, enc.uPlane[y*enc.uvStride:], enc.vPlane[y*enc.uvStride:], uvWidth)"]%string.
+Definition modelled_goroutine_prelude : list string :=
+  ["defer uvwg.Done()";
+   "wk := getImportUVWorker(padW, uvWidth)";
+   "if !hasAlpha { for i := range wk.planarA { wk.planarA[i] = 0xff } }";
+   "srcBase := (bounds.Min.Y-pixRect.Min.Y)*pixStride + (bounds.Min.X-pixRect.Min.X)*4";
+   "importUVWorkerPool.Put(wk)"]%string.
